@@ -30,7 +30,7 @@ func init() {
 			Setup: txnSetup, Exec: txnExec, Random: nil, Sig: txnSig, Assume: assume, MCWorkers: 12,
 		}
 	}
-	c05 := mk("C05", []string{"cells are small integers and NULL; statement forms: INSERT (1 and 2 rows, wrong length), UPDATE/DELETE with and without WHERE, REPLACE on one key column, ADD/DROP/RENAME column, on file tables and a temporary table; INSERT..SELECT, column lists, UPDATE..FROM join, multi-assignment UPDATE, ADD FIRST / DEFAULT expression, CREATE TABLE AS SELECT, SET ENCODING, inserts made by user-defined functions"}, "TxnGen_create.cfg", "TxnGen_temp.cfg", "TxnGen_two.cfg", "TxnGen_typed.cfg")
+	c05 := mk("C05", []string{"cells are small integers and NULL; statement forms: INSERT (1 and 2 rows, wrong length), UPDATE/DELETE with and without WHERE, REPLACE on one key column, ADD/DROP/RENAME column, on file tables and a temporary table; INSERT..SELECT, column lists, UPDATE..FROM join, multi-assignment UPDATE, ADD FIRST / DEFAULT expression, CREATE TABLE AS SELECT, SET ENCODING, inserts made by user-defined functions"}, "TxnGen_create.cfg", "TxnGen_temp.cfg", "TxnGen_two.cfg", "TxnGen_typed.cfg", "TxnGen_dirs.cfg")
 	c05.Random = func(r *core.Run, k int) (Action, []Action) { return txnRandom(r, k, "dml") }
 	c08 := mk("C08", []string{"failure causes modelled: division by zero at one row of a multi-row UPDATE, wrong row length, unknown field after RENAME/DROP, duplicate column, existing file, missing file, failing DEFAULT expression, ambiguous join update, CREATE TABLE AS SELECT with wrong names / failing query, COMMIT that cannot encode a changed file, one UPDATE of two tables failing in the second"}, "TxnGen_create.cfg", "TxnGen_commitfail.cfg", "TxnGen_temp.cfg", "TxnGen_two.cfg", "TxnGen_typed.cfg")
 	c08.Random = func(r *core.Run, k int) (Action, []Action) { return txnRandom(r, k, "fail") }
@@ -128,7 +128,7 @@ func txnSetup(dir string, init Action) []string {
 	writeFile(filepath.Join(dir, "nest.sql"), "@z := 1;\n")
 	for f, t := range txnInitTables(init) {
 		if !t.Absent {
-			writeFile(filepath.Join(dir, f+".csv"), tableBytes(f, t))
+			writeFile(fileOf(dir, f), tableBytes(f, t))
 		}
 	}
 	// nobody else holds these files (the environment process commits and leaves): a lock that is still there
@@ -154,9 +154,20 @@ var txnPreamble = []string{"DECLARE tt VIEW (id, v);", "VAR @z;", "DECLARE noop 
 	"DECLARE ins_f1 FUNCTION (@k) AS BEGIN INSERT INTO `f1.csv` VALUES (@k, 1); END;", "DECLARE ins_f2 FUNCTION (@k) AS BEGIN INSERT INTO `f2.csv` VALUES (@k, 1); END;",
 	"DECLARE ins_tt FUNCTION (@k) AS BEGIN INSERT INTO tt VALUES (@k, 1); END;", "PREPARE pz FROM '@z := 3';"}
 
+// fileOf: where table f lives under the repository directory dir (g1 is the f1.csv of the sub-directory)
+func fileOf(dir, f string) string {
+	if f == "g1" {
+		return filepath.Join(dir, "sub", "f1.csv")
+	}
+	return filepath.Join(dir, f+".csv")
+}
+
 func tname(t string) string {
 	if t == "tt" {
 		return "tt"
+	}
+	if t == "g1" {
+		return "`sub/f1.csv`"
 	}
 	return "`" + t + ".csv`"
 }
@@ -339,6 +350,9 @@ func showFile(path string, zeroIsAbsent bool) []string {
 
 // pathSpelling: table t of the repository dir under spelling x
 func pathSpelling(dir, t string, x int) string {
+	if t == "g1" {
+		t = "sub/f1"
+	}
 	switch x {
 	case 1:
 		return "`./" + t + ".csv`"
@@ -352,6 +366,16 @@ func pathSpelling(dir, t string, x int) string {
 
 func txnExec(p *sut.Proc, a Action) Out {
 	switch actName(a) {
+	case "chdir":
+		d := p.Dir
+		if aInt(a, "k") == 1 {
+			d = filepath.Join(p.Dir, "sub")
+		}
+		r := p.Exec("SET @@REPOSITORY TO '" + d + "';")
+		if r.Err != "" {
+			return Out{K: "err", E: errClass(r), Vals: []string{}}
+		}
+		return Out{K: "ok", Vals: []string{}}
 	case "selectpath":
 		r := p.Exec("SELECT * FROM " + pathSpelling(p.Dir, aStr(a, "t"), aInt(a, "x")) + ";")
 		if r.Err != "" {
@@ -398,7 +422,7 @@ func txnExec(p *sut.Proc, a Action) Out {
 			}
 			return Out{K: "val", Vals: []string{"CREATED-BUT-NO-FILE"}}
 		}
-		return Out{K: "val", Vals: showFile(filepath.Join(p.Dir, aStr(a, "t")+".csv"), true)}
+		return Out{K: "val", Vals: showFile(fileOf(p.Dir, aStr(a, "t")), true)}
 	case "env":
 		return envCommit(p, aStr(a, "t"))
 	case "create", "commit", "rollback", "setenc", "createas", "callnoop", "nestexec", "nestsource", "nestprep":
@@ -436,7 +460,7 @@ func txnExec(p *sut.Proc, a Action) Out {
 				n = "0"
 			}
 			for i, f := range []string{aStr(a, "t"), aStr(a, "u")} {
-				if strings.HasSuffix(m[2], "/"+f+".csv") {
+				if m[2] == fileOf(p.Dir, f) {
 					vals[i] = n
 				}
 			}
@@ -452,7 +476,7 @@ func txnExec(p *sut.Proc, a Action) Out {
 
 // envCommit: another csvq transaction appends a row (all columns = 90 + number of earlier env commits) and commits.
 func envCommit(p *sut.Proc, f string) Out {
-	path := filepath.Join(p.Dir, f+".csv")
+	path := fileOf(p.Dir, f)
 	b, err := os.ReadFile(path)
 	if err != nil {
 		core.Fail("env: %v", err)
@@ -471,7 +495,7 @@ func envCommit(p *sut.Proc, f string) Out {
 	for i := range vals {
 		vals[i] = fmt.Sprintf("%d", 90+n)
 	}
-	r := e.Exec(fmt.Sprintf("INSERT INTO `%s.csv` VALUES (%s); COMMIT;", f, strings.Join(vals, ", ")))
+	r := e.Exec(fmt.Sprintf("INSERT INTO %s VALUES (%s); COMMIT;", tname(f), strings.Join(vals, ", ")))
 	if r.Err != "" {
 		return Out{K: "err", E: errClass(r), Vals: []string{}}
 	}
@@ -540,12 +564,28 @@ func txnRandom(r *core.Run, hk int, flavour string) (Action, []Action) {
 		acts = append(acts, txnA("select", "f1", 0, 0), txnA("commit", "", 0, 0), txnA("disk", "f1", 0, 0), txnA("disk", "f2", 0, 0), txnA("select", "f1", 0, 0))
 		return init, acts
 	}
-	init := Action{"disk": map[string]jtable{"f1": mkT(n1), "f2": mkT(n2), "f3": {Cols: []string{}, Rows: [][]int{}, Absent: true}}}
-	tabs := []string{"f1", "f1", "f2", "tt", "f3"}
+	init := Action{"disk": map[string]jtable{"f1": mkT(n1), "f2": mkT(n2), "f3": {Cols: []string{}, Rows: [][]int{}, Absent: true}, "g1": mkT(4)}}
+	tabs := []string{"f1", "f1", "f2", "tt", "f3", "g1"}
+	cwd := "top"
 	var acts []Action
 	n := 18 + rng.Intn(25)
 	for i := 0; i < n; i++ {
+		// now and then the repository changes: in the sub-directory the name f1 means another file (g1 of the specification),
+		// and only f1 and the temporary table have names there
+		if rng.Intn(14) == 0 {
+			if cwd == "top" {
+				cwd = "sub"
+				acts = append(acts, txnA("chdir", "", 1, 0))
+			} else {
+				cwd = "top"
+				acts = append(acts, txnA("chdir", "", 0, 0))
+			}
+		}
+		before := len(acts)
 		t := tabs[rng.Intn(len(tabs))]
+		if cwd == "sub" {
+			t = []string{"f1", "tt"}[rng.Intn(2)]
+		}
 		key := func() int {
 			m := n1
 			if t == "f2" {
@@ -647,8 +687,20 @@ func txnRandom(r *core.Run, hk int, flavour string) (Action, []Action) {
 				acts = append(acts, txnA("select", t, 0, 0))
 			}
 		}
+		if cwd == "sub" {
+			// what cannot be said in the sub-directory is replaced by a read of f1
+			for k := before; k < len(acts); k++ {
+				a := acts[k]
+				n, t2, u2 := actName(a), aStr(a, "t"), aStr(a, "u")
+				free := n == "env" || n == "disk" || n == "commit" || n == "rollback" || n == "callnoop"
+				ok := (t2 == "f1" || t2 == "tt" || t2 == "") && (u2 == "f1" || u2 == "tt" || u2 == "") && n != "create" && n != "createas" && n != "selectpath" && n != "insertpath"
+				if !free && !ok {
+					acts[k] = txnA("select", "f1", 0, 0)
+				}
+			}
+		}
 	}
-	acts = append(acts, txnA("commit", "", 0, 0), txnA("disk", "f1", 0, 0), txnA("disk", "f2", 0, 0), txnA("disk", "f3", 0, 0))
+	acts = append(acts, txnA("chdir", "", 0, 0), txnA("commit", "", 0, 0), txnA("disk", "f1", 0, 0), txnA("disk", "f2", 0, 0), txnA("disk", "f3", 0, 0), txnA("disk", "g1", 0, 0))
 	return init, acts
 }
 
@@ -688,7 +740,7 @@ func runC01(r *core.Run) {
 	if r.Thorough {
 		nsim = 4000
 	}
-	n := txnScriptReplay(r, []string{"TxnScriptGen.cfg", "TxnScriptGen_commitfail.cfg", "TxnScriptGen_create.cfg", "TxnScriptGen_temp.cfg", "TxnScriptGen_two.cfg", "TxnScriptGen_nested.cfg"}, nsim, "c01")
+	n := txnScriptReplay(r, []string{"TxnScriptGen.cfg", "TxnScriptGen_commitfail.cfg", "TxnScriptGen_create.cfg", "TxnScriptGen_temp.cfg", "TxnScriptGen_two.cfg", "TxnScriptGen_nested.cfg", "TxnScriptGen_dirs.cfg"}, nsim, "c01")
 	r.Coverage["traces_validated_against_impl"] = n
 	r.Coverage["exhaustive"] = false
 }
@@ -742,12 +794,12 @@ func txnScriptReplay(r *core.Run, cfgs []string, nsim int, pre string) int {
 		dir := r.Dir(fmt.Sprintf("c01.%d", i))
 		defer os.RemoveAll(dir)
 		repo := filepath.Join(dir, "repo")
-		_ = os.MkdirAll(repo, 0755)
+		_ = os.MkdirAll(filepath.Join(repo, "sub"), 0755)
 		initBytes := map[string]string{}
 		for f, t := range txnInitTables(b.init) {
 			if !t.Absent {
 				initBytes[f] = tableBytes(f, t)
-				writeFile(filepath.Join(repo, f+".csv"), initBytes[f])
+				writeFile(fileOf(repo, f), initBytes[f])
 			}
 		}
 		writeFile(filepath.Join(repo, "nest.sql"), "@z := 1;\n")
@@ -771,6 +823,14 @@ func txnScriptReplay(r *core.Run, cfgs []string, nsim int, pre string) int {
 			}
 			if actName(a) == "nestsource" {
 				fmt.Fprintf(&sql, "SOURCE `%s`;\n", filepath.Join(repo, "nest.sql"))
+				continue
+			}
+			if actName(a) == "chdir" {
+				d := repo
+				if aInt(a, "k") == 1 {
+					d = filepath.Join(repo, "sub")
+				}
+				fmt.Fprintf(&sql, "SET @@REPOSITORY TO '%s';\n", d)
 				continue
 			}
 			sql.WriteString(txnSQL(a))
@@ -835,7 +895,7 @@ func txnScriptReplay(r *core.Run, cfgs []string, nsim int, pre string) int {
 		}
 		// the files afterwards
 		for f, want := range b.final {
-			got := showFile(filepath.Join(repo, f+".csv"), false)
+			got := showFile(fileOf(repo, f), false)
 			if !sameOut(Out{K: "val", Vals: got}, Out{K: "val", Vals: want}) {
 				kind := "changed-table"
 				if len(want) == 1 && want[0] == "ABSENT" {
@@ -849,7 +909,7 @@ func txnScriptReplay(r *core.Run, cfgs []string, nsim int, pre string) int {
 			if ib, ok := initBytes[f]; ok && !attrChanged[f] {
 				init := showFileContent(ib)
 				if sameOut(Out{K: "val", Vals: init}, Out{K: "val", Vals: want}) {
-					if nb, _ := os.ReadFile(filepath.Join(repo, f+".csv")); string(nb) != ib {
+					if nb, _ := os.ReadFile(fileOf(repo, f)); string(nb) != ib {
 						return res{pre + ":untouched-bytes", fmt.Sprintf("%s.csv has the same table but different bytes\n%s", f, ctx)}
 					}
 				}
